@@ -127,6 +127,7 @@ Proof.
   - apply expl_inc_step; auto.
   - apply expl_dec_step; auto.
     apply Z.leb_le; auto.
+  - apply call_inv; simpl; auto; try discriminate; try (split; auto).
 Qed.
 
 Lemma run_from_inv l : forall s, Inv s -> Inv (run_from_t tbl s l).
@@ -206,3 +207,30 @@ Proof.
 Qed.
 
 End Table.
+
+(* ------------------------------------------------------------------ dispatch through the overload-selection table *)
+Lemma meth_eqb_true a b : meth_eqb a b = true -> a = b.
+Proof. destruct a, b; simpl; intro H; try discriminate; reflexivity. Qed.
+
+Lemma sel_ok_fst sel : sel_ok sel = true -> forall f, fst (sel f) = fst (model_sel f).
+Proof.
+  unfold sel_ok. intros H f. rewrite forallb_forall in H.
+  assert (I : In f all_cforms) by (destruct f; simpl; tauto).
+  specialize (H f I). unfold sel_eqb in H. apply andb_true_iff in H as [H _].
+  destruct (fst (sel f)) as [x|], (fst (model_sel f)) as [y|]; try discriminate.
+  apply meth_eqb_true in H. now subst.
+Qed.
+
+Lemma exec_op_s_eq sel tbl s o : sel_ok sel = true -> exec_op_s sel tbl s o = exec_op tbl s o.
+Proof.
+  intro H. unfold exec_op_s. destruct o; simpl; try reflexivity; rewrite (sel_ok_fst sel H); reflexivity.
+Qed.
+
+Lemma step_s_eq sel tbl s o : sel_ok sel = true -> step_s sel tbl s o = step_t tbl s o.
+Proof. intro H. unfold step_s, step_t. now rewrite exec_op_s_eq. Qed.
+
+Lemma run_s_eq sel tbl n l : sel_ok sel = true -> run_s sel tbl n l = run_t tbl n l.
+Proof.
+  intro H. unfold run_s, run_t, run_from_t. generalize (init n). induction l as [|o l IH]; intro s; simpl; auto.
+  rewrite step_s_eq by auto. apply IH.
+Qed.
